@@ -591,14 +591,15 @@ func orchestrate(args []string) {
 	for _, v := range total.Violations {
 		p := writeReplay(v)
 		ok := 0
-		for k := 0; k < 5; k++ {
+		exempt := v.Class == "process-death" || v.Class == "hang" || strings.HasPrefix(v.Class, "data-race(go race detector") || strings.HasPrefix(v.Class, "hang(free-running")
+		for k := 0; k < 5 && !exempt; k++ {
 			if replayFails(def, p, v) {
 				ok++
 			}
 		}
 		// (a report of the Go race detector is a proof by itself - the detector has no false positives - and the
 		// schedule of a free-running execution cannot be replayed: it is kept whatever the re-runs show)
-		if ok < 5 && v.Class != "process-death" && v.Class != "hang" && !strings.HasPrefix(v.Class, "data-race(go race detector") && !strings.HasPrefix(v.Class, "hang(free-running") {
+		if ok < 5 && !exempt {
 			// not believed: a discrepancy that does not fail every time in a fresh process is set aside; if nothing
 			// else is confirmed the run ends without a verdict (exit 2), never with an alarm
 			fmt.Fprintf(os.Stderr, "verif: %s: discrepancy %s/%s reproduced only %d/5 times in a fresh process: set aside (replay=%s)\n", id, v.Oracle, v.Class, ok, p)
